@@ -63,6 +63,11 @@ def fopen_mode(mod, fn, call):
     return mod.const_string(M.strip(call.ops[1], ("bitcast",)))
 
 
+def fn_is_call_result(fn, o):
+    d = fn.defn(o)
+    return d is not None and not d.is_param and d.op == "call"
+
+
 def run(tier, seed):
     rep = Report("C10", tier, "other",
                  "Static call-graph, path and provenance analysis of the extraction code: (R1) no call path from the list, test, "
@@ -376,6 +381,37 @@ def run(tier, seed):
                           None if guarded else "no such test: with entries  real/ ; dddddddd -> real ; s -> dddddddd ; s/x -> ABS ; dddddddd -> OUTSIDE  the link dddddddd (longer, so first) "
                           "is re-created pointing outside, and creating s/x then unlinks and replaces OUTSIDE/x", function="extract_symlink", obj="deferred-parent-components")
 
+        # ---- R5b: the CLI names every extraction itself ------------------------------------------------------------------
+        rid = rep.rule("R5b", "every lha_reader_extract call of the CLI passes a name it built (w= prefix applied, leading '/' stripped: R5) - never NULL, for which "
+                              "the library falls back to the header's own path", 1)
+        from ..callgraph import CallGraph as _CG
+        _cg = _CG(mod)
+
+        def name_sources(fn_, o_, depth=0):
+            """leaves of the name argument; a parameter is followed into the callers (two levels)"""
+            out_ = []
+            for s_, _f in ctx.facts(fn_).sources(o_):
+                d_ = fn_.defn(s_)
+                if d_ is not None and d_.is_param and depth < 2:
+                    callers = [(g_, c_) for g_ in mod.defined() for c_ in g_.calls(fn_.cname) if mod.functions.get(c_.callee) is fn_]
+                    if callers:
+                        for g_, c_ in callers:
+                            out_ += name_sources(g_, c_.ops[d_.index], depth + 1)
+                        continue
+                out_.append((fn_, s_))
+            return out_
+        for f in mod.defined():
+            if not f.file.startswith("src/") and "/src/" not in f.file and not f.file.endswith(("extract.c", "main.c", "list.c", "filter.c")):
+                continue
+            for c in f.calls("lha_reader_extract"):
+                srcs = name_sources(f, c.ops[1])
+                nulls = [(g_, s_) for g_, s_ in srcs if s_[0] == "null" or (is_const(s_) and const_val(s_) == 0)]
+                built = [(g_, s_) for g_, s_ in srcs if fn_is_call_result(g_, s_)]
+                rep.check(rid, bool(srcs) and not nulls and len(built) == len(srcs), "%s: the name handed to lha_reader_extract is one the CLI built" % f.cname, c.where(),
+                          None if (srcs and not nulls and len(built) == len(srcs)) else
+                          ("a NULL name reaches the call: the library then extracts to the header's own path, which has neither the w= directory in front nor its leading '/' removed"
+                           if nulls else "the name is not the result of a name-building call: %s" % [describe(g_, s_) for g_, s_ in srcs if not fn_is_call_result(g_, s_)][:2]),
+                          function=f.cname, obj="extract-name")
         # ---- R5: leading '/' stripping ---------------------------------------------------------------------------------
         rid = rep.rule("R5", "file_full_path appends header->path / header->filename only from a position whose first byte is not '/'", 2)
         # decided on the inlined view of src/extract.c, so that the skip loop may live in file_full_path itself or in a helper it calls
